@@ -193,14 +193,6 @@ func c02Eval(v []int) (string, string, bool) {
 	return "", "", true
 }
 
-func viaStrs(l []AVia) []string {
-	var o []string
-	for _, e := range l {
-		o = append(o, e.String())
-	}
-	return o
-}
-
 // ---- history part: concurrent transactions through two backends ----
 
 type c02Ev struct {
@@ -232,9 +224,9 @@ func c02HistExec(received string, hist []c02Ev) (string, string, string) {
 	defer w.Close()
 	type txn struct {
 		sent    bool
-		req     *WMsg     // what the user agent sent
-		relayed *WMsg     // what the backend received
-		backend string    // address of the backend that got it
+		req     *WMsg  // what the user agent sent
+		relayed *WMsg  // what the backend received
+		backend string // address of the backend that got it
 		bconn   *vnet.TCPConn
 		final   bool
 		nans    int
@@ -476,7 +468,7 @@ func init() {
 		return true
 	}
 	addCheck(&Check{ID: "C02", Level: "model_checking",
-		Rule: "(inputs) complete product: routing entry (transport x host literal/host-table name x port x received x rport {absent, valueless, numeric, non-numeric} x extra parameters, plus 6 undecodable / missing shapes) x top entry x 0-4 further entries x EVERY layout (all compositions into header lines, full/compact/mixed/upper-case names) x status class x arrival transport, each on a fresh world; (histories) explicit-state BFS by replay over three concurrent transactions (UDP and TCP user agents, UDP and TCP backends): events {request t, backend answers t with 180 / 200 (repeatable)} in every order to depth 6 (thorough 8), received-support on/off; non-trivial = a Via entry remains after the pop / history longer than one event",
+		Rule:   "(inputs) complete product: routing entry (transport x host literal/host-table name x port x received x rport {absent, valueless, numeric, non-numeric} x extra parameters, plus 6 undecodable / missing shapes) x top entry x 0-4 further entries x EVERY layout (all compositions into header lines, full/compact/mixed/upper-case names) x status class x arrival transport, each on a fresh world; (histories) explicit-state BFS by replay over three concurrent transactions (UDP and TCP user agents, UDP and TCP backends): events {request t, backend answers t with 180 / 200 (repeatable)} in every order to depth 6 (thorough 8), received-support on/off; non-trivial = a Via entry remains after the pop / history longer than one event",
 		Assume: []string{"sent-by hosts are IPv4 literals or host-table names (stated domain); undecodable shapes only in the two entries the proxy must consult"},
 		Run: func(c *Ctx) {
 			c02Spec.Run(c)
